@@ -2,7 +2,30 @@
 
 INTERP_MODELLED = "modelled rather than verified: interpreter.go, evaluate_expr.go, infix.go, value.go, args_parser.go, reconciler.go, batch_balances_query.go (coq/Model/*.v)"
 
+SCRIPTS_RULE = "scripts from the grammar-complete generator (harness/gen.go: every alternative of every rule, nesting depth <= 3 (thorough: <= 5), account pool of 6 names + world so that repetition and aliasing through variables are frequent, balances incl. zero/negative/>2^64, amounts centred on the supply threshold), run through numscript.Parse(..).Run against the harness's stores; "
+
 PROPS = {
+    "C03": {
+        "rule": SCRIPTS_RULE + "profile: one fixed-amount send (optionally preceded by saves). Non-trivial: source and destination trees evaluate and the send reaches the draw; distinct by hash of the case.",
+        "assumptions": ["Spec/Greedy.v (draw_exact) is what 'the sources, drawn in their declared order within their balances, caps and overdraft limits, can supply' means",
+                        "Spec/Distribution.v gives the kept total"],
+        "trusted_base": [INTERP_MODELLED],
+    },
+    "C04": {
+        "rule": SCRIPTS_RULE + "profile: one send (35% send-all) into a plain account, sources of depth <= 4. Non-trivial: the source is not a single account and evaluates; distinct by hash.",
+        "assumptions": ["Spec/Greedy.v is the reading of 'left-to-right greedy draw' (leaf: min(need, max 0 (balance + overdraft - already pulled)))"],
+        "trusted_base": [INTERP_MODELLED],
+    },
+    "C05": {
+        "rule": SCRIPTS_RULE + "profile: one fixed-amount send from @world into generated destination trees (depth <= 4, 20% negative caps, kept in any position). Non-trivial: the destination is not a single account; distinct by hash.",
+        "assumptions": ["Spec/Distribution.v is the reading of 'declared distribution'"],
+        "trusted_base": [INTERP_MODELLED],
+    },
+    "C06": {
+        "rule": "single-allotment scripts `send [A n] (source=@world destination={p_i to @d_i})` with distinct accounts (and the mirrored source form): n in 0..40 / 0..10^5 / big mix, 1-4 clauses, denominators {2..12,100,1000,3000}, ratio and percentage spellings, portion variables, optional remaining, 8% bad sums; thorough adds the exhaustive small scope (denominators <= 6, <= 3 clauses, totals 0..40). Non-trivial: top-level allotment reached; distinct by hash.",
+        "assumptions": ["Spec/Shares.v: share i = floor(p_i * n) + [i < leftover]"],
+        "trusted_base": [INTERP_MODELLED, "ast.go RatioLiteral.ToRatio and the literal conversion are covered through the dumped AST (numerator/denominator) only"],
+    },
     "C07": {
         "rule": "group direct: interpreter.Reconcile called on generated sender/receiver lists (names a,b,c / x,y,a,<kept>; lengths 0..4; amounts 1..9 and big); thorough adds the exhaustive small scope (senders <=3 over 2 names x amounts 1..3, receivers <=2 over 2 names + kept x amounts 1..3). group sends: single-send scripts from the grammar-complete generator run through numscript.Parse(..).Run. Non-trivial: at least one sender and one receiver reach the reconciler; distinct by hash of the Coq case term.",
         "assumptions": ["the unit-expansion pairing (coq/Spec/Pairing.v) is what 'first-come-first-served' means",
